@@ -55,7 +55,18 @@ void outPacket(Out& o, const Packet& p)
     o.vec(x.bytes);
     if (x.valid)
         o.val(sweepTyped(dummyW(), p.getPayload(), x.fullType));
+    // destination buffers are pre-filled with the environment's fill pattern: a serialiser that leaves a byte unwritten
+    // shows up in the A/B differential (and under valgrind the fill is marked undefined)
     uint8_t hdr[8], mh[16];
+#if defined(VERIF_CFG_PLAINB)
+    memset(hdr, 0xC3, sizeof hdr);
+    memset(mh, 0xC3, sizeof mh);
+#else
+    memset(hdr, 0x5A, sizeof hdr);
+    memset(mh, 0x5A, sizeof mh);
+#endif
+    VALGRIND_MAKE_MEM_UNDEFINED(hdr, sizeof hdr);
+    VALGRIND_MAKE_MEM_UNDEFINED(mh, sizeof mh);
     p.getRawCmpHeader(hdr);
     p.getRawMessageHeader(mh);
     o.bytes(hdr, 8);
